@@ -222,6 +222,12 @@ func (x *Exec) cident(env *CEnv, name, want string) Term {
 		return t
 	}
 	if env.st != nil {
+		switch name {
+		case "sawCancel", "waited", "closerSpawned":
+			return x.ghostBool(env.st, name)
+		case "sleeps", "added", "spawned", "doneCalls":
+			return x.ghostInt(env.st, name)
+		}
 		if t, ok := env.st.ghosts[name]; ok {
 			return t
 		}
@@ -501,6 +507,28 @@ func (x *Exec) ccall(env *CEnv, e CCall, want string) Term {
 	}
 	if f, ok := specFns[e.Fn]; ok {
 		return f(x, env, e, want)
+	}
+	// ghost state of channels: sent(c), rcvd(c), closed(c) ...
+	switch e.Fn {
+	case "sent", "rcvd", "total", "closed", "own", "drained", "slots", "cap", "shares", "myshare", "maysend":
+		if len(e.Args) == 1 {
+			ch := x.ceval(env, e.Args[0], "Ref")
+			if e.Fn == "maysend" {
+				return tOr(x.chFlag(env.st, "own", ch), tApp("Bool", ">", x.chInt(env.st, "myshare", ch), tInt(0)))
+			}
+			if name, elem, ok := x.chanStateMap(env.st, e.Fn, ch); ok {
+				if e.Fn == "total" && x.dry == 0 {
+					// channel axiom (DESIGN 4.4): what this goroutine has received from c is a
+					// prefix of everything that will ever be delivered on c
+					rn, _, rtr := x.chTrace(env.st, "rcvd", ch)
+					r := tSelect(x.heapMap(env.st, rn, rtr), ch, rtr)
+					t := tSelect(x.heapMap(env.st, name, elem), ch, elem)
+					env.st.assume(tApp("Bool", "tprefix_"+rtr, r, t))
+				}
+				return tSelect(x.heapMap(env.st, name, elem), ch, elem)
+			}
+			x.cfail(env, "%s(%s): not a channel (type %v)", e.Fn, ch.S, ch.Ty)
+		}
 	}
 	// ghost state of interfaces: view(x), done(x) ...
 	if t, ok := x.ifaceState(env, e); ok {
@@ -797,6 +825,50 @@ func init() {
 			}
 			return x.convUF(v, x.resolveSort(env, id.Name))
 		},
+		"tmapok":     func(x *Exec, env *CEnv, e CCall, want string) Term { return x.cTraceF(env, e, "tmapok") },
+		"terrs":      func(x *Exec, env *CEnv, e CCall, want string) Term { return x.cTraceF(env, e, "terrs") },
+		"tallok":     func(x *Exec, env *CEnv, e CCall, want string) Term { return x.cTraceF(env, e, "tallok") },
+		"tfilter":    func(x *Exec, env *CEnv, e CCall, want string) Term { return x.cTraceF(env, e, "tfilter") },
+		"tfilternot": func(x *Exec, env *CEnv, e CCall, want string) Term { return x.cTraceF(env, e, "tfilternot") },
+		"tallkeep":   func(x *Exec, env *CEnv, e CCall, want string) Term { return x.cTraceF(env, e, "tallkeep") },
+		"keep":       func(x *Exec, env *CEnv, e CCall, want string) Term { return x.cTraceF(env, e, "keep") },
+		"fpow":       func(x *Exec, env *CEnv, e CCall, want string) Term { return x.cTraceF(env, e, "fpow") },
+		"titer":      func(x *Exec, env *CEnv, e CCall, want string) Term { return x.cTraceF(env, e, "titer") },
+		"tflat":   func(x *Exec, env *CEnv, e CCall, want string) Term { return x.cTraceFF(env, e, "tflat") },
+		"tferrs":  func(x *Exec, env *CEnv, e CCall, want string) Term { return x.cTraceFF(env, e, "tferrs") },
+		"tfallok": func(x *Exec, env *CEnv, e CCall, want string) Term { return x.cTraceFF(env, e, "tfallok") },
+		// arrowemits(f, a) / arrowfails(f, a): what a user-supplied arrow function sends for a,
+		// and the error it returns (trusted arrow contract, DESIGN C05)
+		"arrowemits": func(x *Exec, env *CEnv, e CCall, want string) Term { return x.cArrow(env, e, true) },
+		"arrowfails": func(x *Exec, env *CEnv, e CCall, want string) Term { return x.cArrow(env, e, false) },
+		"tupto": func(x *Exec, env *CEnv, e CCall, want string) Term {
+			n := x.ceval(env, e.Args[0], "Int")
+			tr := x.d.TrOf("Int")
+			x.d.instantiate("Upto", map[string]string{"T": tr})
+			return tApp(tr, "tupto_"+tr, n)
+		},
+		// tol(acc, l): the trace acc followed by the elements of list l; tolist(tr): the list of a trace
+		"tol": func(x *Exec, env *CEnv, e CCall, want string) Term {
+			var acc, l Term
+			if isEmptyList(e.Args[0]) {
+				l = x.ceval(env, e.Args[1], "")
+				li := x.listKind(env, l, "tol")
+				acc = x.ceval(env, e.Args[0], x.d.TrOf(li.Elem))
+			} else {
+				acc = x.ceval(env, e.Args[0], "")
+				ai := x.listKind(env, acc, "tol")
+				l = x.ceval(env, e.Args[1], x.d.ListOf(ai.Elem))
+			}
+			x.d.instantiate("TraceOfList", map[string]string{"T": acc.Sort, "L": l.Sort})
+			return tApp(acc.Sort, "tol_"+acc.Sort, acc, l)
+		},
+		"tolist": func(x *Exec, env *CEnv, e CCall, want string) Term {
+			tr := x.ceval(env, e.Args[0], "")
+			ti := x.listKind(env, tr, "tolist")
+			ls := x.d.ListOf(ti.Elem)
+			x.d.instantiate("TraceToList", map[string]string{"T": tr.Sort, "L": ls})
+			return tApp(ls, "tolist_"+tr.Sort, tr)
+		},
 		"mfwd": func(x *Exec, env *CEnv, e CCall, want string) Term { return x.cMorph(env, e, true) },
 		"minv": func(x *Exec, env *CEnv, e CCall, want string) Term { return x.cMorph(env, e, false) },
 		"zero": func(x *Exec, env *CEnv, e CCall, want string) Term {
@@ -852,6 +924,113 @@ func mentionsState(e CExpr) bool {
 		}
 	}
 	return false
+}
+
+// cTraceF: spec functions over a stage-function instance f (an interface value with a
+// two-result Apply method): tmapok(f, tr), terrs(f, tr), tfilter(f, tr), keep(f, a), ...
+func (x *Exec) cTraceF(env *CEnv, e CCall, name string) Term {
+	f := x.ceval(env, e.Args[0], "Ref")
+	var ms *methSig
+	for _, in := range x.ifacesOfTerm(f) {
+		if m, ok := x.methodUF(in, "Apply"); ok && len(m.fnames) == 2 && len(m.args) == 1 {
+			ms = m
+		}
+	}
+	if ms == nil {
+		x.cfail(env, "%s: %s (type %v) is not a stage function instance", name, f.S, f.Ty)
+	}
+	A, B := ms.args[0], ms.rets[0]
+	ta, tb, te := x.d.TrOf(A), x.d.TrOf(B), x.d.TrOf(x.errSort())
+	apply, errf := ms.fnames[0], ms.fnames[1]
+	switch name {
+	case "tmapok", "terrs", "tallok":
+		x.d.instantiate("TraceF", map[string]string{"A": A, "B": B, "TA": ta, "TB": tb, "TE": te, "APPLY": apply, "ERR": errf})
+		l := x.ceval(env, e.Args[1], ta)
+		if l.Sort != ta {
+			x.cfail(env, "%s: trace has sort %s, expected %s", name, l.Sort, ta)
+		}
+		ret := map[string]string{"tmapok": tb, "terrs": te, "tallok": "Bool"}[name]
+		return tApp(ret, name+"_"+apply, f, l)
+	case "tfilter", "tfilternot", "tallkeep", "keep":
+		if B != "Bool" {
+			x.cfail(env, "%s: %s is not a predicate instance", name, f.S)
+		}
+		x.d.instantiate("TraceKeep", map[string]string{"A": A, "TA": ta, "APPLY": apply, "ERR": errf})
+		if name == "keep" {
+			a := x.ceval(env, e.Args[1], A)
+			return tApp("Bool", "keep_"+apply, f, a)
+		}
+		l := x.ceval(env, e.Args[1], ta)
+		if l.Sort != ta {
+			x.cfail(env, "%s: trace has sort %s, expected %s", name, l.Sort, ta)
+		}
+		if name == "tallkeep" {
+			return tApp("Bool", name+"_"+apply, f, l)
+		}
+		return tApp(ta, name+"_"+apply, f, l)
+	case "fpow", "titer":
+		if A != B {
+			x.cfail(env, "%s: %s is not an endofunction instance", name, f.S)
+		}
+		x.d.instantiate("TraceIter", map[string]string{"A": A, "TA": ta, "APPLY": apply})
+		s := x.ceval(env, e.Args[1], A)
+		n := x.ceval(env, e.Args[2], "Int")
+		if name == "fpow" {
+			return tApp(A, "fpow_"+apply, f, s, n)
+		}
+		return tApp(ta, "titer_"+apply, f, s, n)
+	}
+	x.cfail(env, "unknown trace function %s", name)
+	return Term{}
+}
+
+func (x *Exec) cArrow(env *CEnv, e CCall, emits bool) Term {
+	f := x.ceval(env, e.Args[0], "")
+	fi := x.d.sorts[f.Sort]
+	if fi == nil || fi.Kind != "fn" || len(fi.Args) != 3 || f.Ty == nil {
+		x.cfail(env, "arrowemits/arrowfails: %s (sort %s) is not an arrow function", f.S, f.Sort)
+	}
+	sig, ok := types.Unalias(f.Ty).Underlying().(*types.Signature)
+	if !ok || sig.Params().Len() != 3 {
+		x.cfail(env, "arrowemits/arrowfails: type %v", f.Ty)
+	}
+	a := x.ceval(env, e.Args[1], fi.Args[1])
+	es := x.chanElemSort(sig.Params().At(2).Type())
+	tb := x.d.TrOf(es)
+	if emits {
+		fn := "arrowemits_" + sanitize(f.Sort)
+		x.d.fun(fn, []string{f.Sort, fi.Args[1]}, tb)
+		return tApp(tb, fn, f, a)
+	}
+	fn := "arrowfails_" + sanitize(f.Sort)
+	x.d.fun(fn, []string{f.Sort, fi.Args[1]}, x.errSort())
+	return tApp("Err", fn, f, a)
+}
+
+// cTraceFF: tflat / tferrs / tfallok over an arrow instance (pipe.FF).
+func (x *Exec) cTraceFF(env *CEnv, e CCall, name string) Term {
+	f := x.ceval(env, e.Args[0], "Ref")
+	var em, fl *methSig
+	for _, in := range x.ifacesOfTerm(f) {
+		if m, ok := x.methodUF(in, "emits"); ok {
+			em = m
+		}
+		if m, ok := x.methodUF(in, "fails"); ok {
+			fl = m
+		}
+	}
+	if em == nil || fl == nil {
+		x.cfail(env, "%s: %s (type %v) is not an arrow instance", name, f.S, f.Ty)
+	}
+	A := em.args[0]
+	ta, tb, te := x.d.TrOf(A), em.ret, x.d.TrOf(x.errSort())
+	x.d.instantiate("TraceFF", map[string]string{"A": A, "TA": ta, "TB": tb, "TE": te, "EMITS": em.fname, "FAILS": fl.fname})
+	l := x.ceval(env, e.Args[1], ta)
+	if l.Sort != ta {
+		x.cfail(env, "%s: trace has sort %s, expected %s", name, l.Sort, ta)
+	}
+	ret := map[string]string{"tflat": tb, "tferrs": te, "tfallok": "Bool"}[name]
+	return tApp(ret, name+"_"+em.fname, f, l)
 }
 
 // cMorph: mfwd(l, s, t) / minv(l, t, s) over a list of isomorphism instances.
